@@ -31,6 +31,9 @@ EDITS = [
     ("update", {"n": 5}, False), ("update", {"z": 7}, False), ("update", {"f": True}, False), ("update", {"e": "x"}, False),
     ("update", {"el": [1]}, False), ("update", {"em": {"k": 1}}, False), ("update", {"n": None}, False), ("update", {"n": 5}, True),
     ("set", "n", 0), ("del", "n"),
+    # several keys at once, the conflicting key in every position (mapping order is the caller's)
+    ("update", {"new1": 1, "a": 5}, False), ("update", {"a": 5, "new1": 1}, False), ("update", {"new1": 1, "new2": 2, "a": 5}, False),
+    ("update", {"new1": 1, "new2": 2}, False), ("update", {"new1": 1, "a": 1}, False), ("update", {"new1": 1, "a": 5}, True),
     ("move",), ("clone",),
 ]
 DESTS = ["absent", "initialised", "handle_only", "empty_dir", "file"]
